@@ -287,6 +287,15 @@ Theorem Link_get_sim_sealed :
 Proof. exact get_sim_sealed. Qed.
 Print Assumptions Link_get_sim_sealed.
 
+(* Filer.Open of a sealed segment: the byte-level header validation accepts the
+   image exactly when L2's open_segs does (committed header: cur_end <> 0) *)
+Theorem Link_open_sealed_sim :
+  forall info bs f k,
+    hdr_wf info -> cur_rep info bs f ->
+    open_sealed info (image info bs ++ zeros k) = negb (cur_end f =? 0).
+Proof. exact open_sealed_sim_zeros. Qed.
+Print Assumptions Link_open_sealed_sim.
+
 (* the guard of the WAL-level theorems implies the byte-level guard *)
 Theorem Link_log_ok_enc_ok : forall ls, logs_ok ls -> encs_ok ls.
 Proof. exact logs_ok_encs_ok. Qed.
@@ -438,3 +447,13 @@ Proof.
   split; [apply no_torn_collisionb_spec; vm_compute; reflexivity|].
   repeat split; vm_compute; reflexivity.
 Qed.
+
+(* the hypothesis [consec] of the writer simulation is needed: seg_append looks
+   at the first index of a batch only (StoreLogs has checked the rest), the
+   byte-level writer checks every entry *)
+Example Link_ex_consec_needed :
+  let ls := [lk_log 1; lk_log 5] in
+  fst (fst (append (init_empty lk_info) (ents ls) FNone)) = WErrNonMono /\
+  fst (fst (seg_append (new_wseg lk_info) ls lk_env)) = Model.ROk /\
+  fst (check_logs 0 ls) = RErrNonMono.
+Proof. vm_compute. repeat split; reflexivity. Qed.
